@@ -1051,6 +1051,22 @@ Plan gen_c18(uint64_t seed, bool th) {
       if (g.r.pct(6)) rules.push_back("type='bogus'");
       g.add(g.mk("becomemonitor", c, {g.r.pct(95) ? 0 : 1, -1}, rules));
       nmon++;
+    } else if (x < 13 && g.sh.nclients >= 3) {
+      // a monitor that selects what concerns ONE peer by unique name; that peer (holding rules of its own) then
+      // leaves, and the others go on addressing its name: the monitor's filter is untouched by the departure and
+      // it is still shown what is sent to that name (and refused) and the driver's own messages about it
+      int m = c, v = (c + 1) % g.sh.nclients, o = (c + 2) % g.sh.nclients;
+      g.add(g.mk("addmatch", v, {-1}, {g.r.pct(50) ? "type='signal'" : "interface='com.example.Iface'"}));
+      g.add(g.bus_step(3));
+      g.add(g.mk("becomemonitor", m, {0, -1}, {g.r.pct(60) ? "destination='$u" + std::to_string(v) + "'" : "sender='$u" + std::to_string(v) + "'"}));
+      nmon++;
+      g.add(g.bus_step(3));
+      g.add(g.mk("check"));
+      g.add(g.mk("close", v));
+      g.add(g.bus_step(3));
+      g.add(g.mk("send", o, {1, 0, -1}, {"$u" + std::to_string(v), "/obj", "com.example.Iface", "Do", "", ""}));
+      g.add(g.bus_step(3));
+      g.add(g.mk("check"));
     } else if (x < 30) {
       std::string name = g.a_name();
       if (g.r.pct(70)) g.add(g.mk("reqname", c, {(int64_t)g.r.below(8), -1}, {name}));
@@ -1142,6 +1158,19 @@ Plan gen_c15(uint64_t seed, bool th) {
   }
   g.add(g.bus_step(3));
   g.add(g.mk("check"));
+  if (g.r.pct(15)) {
+    // somebody watches as a monitor - having negotiated descriptor passing or not: it gets the descriptors with
+    // its copy, or no copy at all
+    int ni = g.sh.nclients;
+    g.add(g.mk("connect", ni, {0, 0, 1000 + ni, g.r.pct(50) ? 1 : 0, 0}));
+    g.add(g.mk("auth", ni, {1}));
+    g.add(g.mk("hello", ni, {-1}));
+    g.add(g.bus_step(3));
+    g.add(g.mk("drain", ni));
+    g.add(g.mk("becomemonitor", ni, {0, -1}, {}));
+    g.add(g.bus_step(3));
+    g.add(g.mk("check"));
+  }
   int nops = (int)g.r.range(5, th ? 50 : 22);
   for (int op = 0; op < nops; op++) {
     int x = (int)g.r.below(100);
@@ -1290,7 +1319,7 @@ Plan gen_c14(uint64_t seed, bool th) {
   // the operation under test
   int c = g.a_client();
   int op = (int)g.r.below(100);
-  if (g.r.pct(9)) {
+  if (g.r.pct(13)) {
     // "parsing ... a configuration file": ReloadConfig with a different file in place - other limits, another
     // policy, a service directory.  Either all of it is in force afterwards, or (NoMemory) none of it.
     g.p.cfg["reload"] = "1";
@@ -1306,7 +1335,7 @@ Plan gen_c14(uint64_t seed, bool th) {
       g.p.cfg["reload.policy.spec"] = pol::encode(p);
     }
     if (g.r.pct(50)) g.p.cfg["reload.activatable"] = g.r.pct(50) ? "com.example.act1" : "com.example.act1,com.example.act2";
-    if (g.r.pct(40)) g.p.cfg["reload.include"] = g.r.pct(50) ? "1" : "2";
+    if (g.r.pct(50)) g.p.cfg["reload.include"] = g.r.pct(40) ? "1" : "2";
     g.add(g.mk("query", c, {-1}, {"ReloadConfig", ""}));
   }
   else if (op < 22 || (qmode && op < 40)) g.add(g.mk("reqname", c, {(int64_t)g.r.below(8), -1}, {hname()}));
